@@ -168,7 +168,35 @@ func runC18(s *core.Sim, tier string) RunInfo {
 		defer cancel()
 		got, gerr = w.Ex.GetRangeByHeight(ctx, w.Ch.At(fromH), to)
 	})
-	stuck := s.Settle(budget+5*time.Second, append(side, t)...)
+	// sometimes a second caller asks the same Exchange for an overlapping range at the same time
+	// (sessions share the peer tracker and its scores): both get exactly their ranges
+	var got2 []*H
+	var gerr2 error
+	var from2, to2 uint64
+	if s.Tape.Coin("second-caller", 1, 4) {
+		from2 = fromH + uint64(s.Tape.Draw("second-from", int(ln)))
+		to2 = to
+		side = append(side, s.Go("get-range-2", func() {
+			ctx, cancel := context.WithTimeout(context.Background(), 2*budget)
+			defer cancel()
+			got2, gerr2 = w.Ex.GetRangeByHeight(ctx, w.Ch.At(from2), to2)
+		}))
+		desc = append(desc, fmt.Sprintf("a second caller asks for (%d:%d) at the same time", from2, to2))
+		s.Probe("two-range-requests-at-once")
+	}
+	stuck := s.Settle(2*budget+5*time.Second, append(side, t)...)
+	if to2 != 0 && len(stuck) == 0 {
+		if gerr2 != nil || uint64(len(got2)) != to2-from2-1 {
+			s.Violate("honest-range-failed", map[string]string{"caller": "second"}, "concurrent GetRangeByHeight(%d,%d): err=%v len=%d although peer%d holds everything and is healthy [%v chunk=%d]", from2, to2, gerr2, len(got2), capable, desc, chunk)
+		} else {
+			for i, h := range got2 {
+				if !simhdr.Equal(h, w.Ch.At(from2+1+uint64(i))) {
+					s.Violate("wrong-range", map[string]string{"kind": "content", "caller": "second"}, "second caller: result[%d]=%v, want height %d", i, h, from2+1+uint64(i))
+					break
+				}
+			}
+		}
+	}
 	info := RunInfo{Nontrivial: np > 1 || nchunks > 1, StateKey: fmt.Sprint(desc, chunk, fromH, to), Evals: 1,
 		Sample: map[string]any{"peers": desc, "chunk": chunk, "from": fromH, "to": to, "request_timeout": timeout.String(), "budget": budget.String(), "result_len": len(got), "err": fmt.Sprint(gerr)}}
 	if t.Panic != nil {
